@@ -677,6 +677,13 @@ def m_dict_get(eng, st, recv, args, kwargs, node):
     if eng.spec_mode:
         a, b = eng.unify(st, val, default, node)
         return SV(a.kind, z3.If(has, a.term, b.term))
+    if val.kind is KVal:
+        # dynamic values: no path split, the result is a conditional value
+        try:
+            d = eng.box(st, default)
+            return SV(KVal, z3.If(has, val.term, d.term))
+        except Unsupported:
+            pass
     if st.branch(has, "dict.get"):
         return val
     return default
@@ -801,7 +808,9 @@ def comprehension(eng, st, node, what, frame=None):
         eltc = eng.coerce(st, elt, ek, node)
         if not g.ifs:
             st.heap[n_] = z3.Store(eng.harr(st, n_), out.term, n)
-            eng.assume(st, qforall([j], z3.Implies(z3.And(0 <= j, j < n), arr[j] == eltc.term), patterns=[arr[j]]))
+            src_j = getter(j)
+            trig = [arr[j]] + ([src_j.term] if src_j.term is not None and src_j.kind is not KConst else [])
+            eng.assume(st, qforall([j], z3.Implies(z3.And(0 <= j, j < n), arr[j] == eltc.term), patterns=trig))
         else:
             m = st.fresh("compn", z3.IntSort())
             srcidx = st.fresh("compsrc", z3.ArraySort(z3.IntSort(), z3.IntSort()))
@@ -843,7 +852,7 @@ def comprehension(eng, st, node, what, frame=None):
         eng.assume(st, qforall([j], z3.Implies(z3.And(0 <= j, j < n), z3.And(mem[kx.term], wit[kx.term] == j)), patterns=[mem[kx.term]]) if False else z3.BoolVal(True))
         _, (kw, vw) = pure_at(wit[kk])
         vwc = eng.coerce(st, vw, vk, node)
-        eng.assume(st, qforall([j], z3.Implies(z3.And(0 <= j, j < n), mem[kx.term])))
+        eng.assume(st, qforall([j], z3.Implies(z3.And(0 <= j, j < n), mem[kx.term]), patterns=[kx.term, mem[kx.term]]))
         eng.assume(st, qforall([kk], z3.Implies(mem[kk], z3.And(0 <= wit[kk], wit[kk] < n, kw.term == kk, val[kk] == vwc.term)), patterns=[mem[kk]]))
         cnt = st.fresh("dcn", z3.IntSort())
         eng.assume(st, z3.And(cnt >= 0, cnt <= n))
